@@ -263,6 +263,259 @@ class PredEval:
                 raise AnalysisError("predicate depends on more than 8 leaves: %s" % leaves)
 
 
+# ---- edge-fact predicates shared by the gate rules ---------------------------
+def is_none_fact(f, forms):
+    """The edge says: X is None / X == None / X is falsy, for X one of `forms`."""
+    if not f:
+        return False
+    op, a, b = f
+    if op == "false" and a in forms:
+        return True
+    return op in ("is", "==") and ((a == "None" and b in forms) or (b == "None" and a in forms))
+
+
+def is_empty_fact(f, var):
+    """The edge says that the bytes variable `var` is empty."""
+    if not f:
+        return False
+    op, a, b = f
+    ln = "len(%s)" % var
+    if op == "false" and a in (var, ln):
+        return True
+    if op == "==" and {a, b} in ({ln, "0"}, {var, "b''"}):
+        return True
+    if op == "<=" and a == ln and b == "0":
+        return True
+    return op == "<" and a == ln and b == "1"
+
+
+def never_truthy(e):
+    """The expression cannot evaluate to a truthy value whatever its variables hold (x and None, b'' ...)."""
+    if isinstance(e, ast.Constant):
+        return not e.value
+    if isinstance(e, ast.BoolOp):
+        if isinstance(e.op, ast.And):
+            return any(never_truthy(v) for v in e.values)
+        return all(never_truthy(v) for v in e.values)
+    if isinstance(e, ast.IfExp):
+        return never_truthy(e.body) and never_truthy(e.orelse)
+    return False
+
+
+# ---- abstract execution of UnknownNode.__init__ (C19.11) ------------------------
+CRASH = "crash"
+UNSET = ("unset",)
+IMM_P = "ALLEGED_IMMUTABLE_PREFIX"
+RO_P = "ALLEGED_READONLY_PREFIX"
+L_RW, L_RO, L_DEEP = "rw cap given", "ro cap given", "deep_immutable"
+L_UNK, L_ERR = "from_string(ro) is UnknownURI", "UnknownURI.get_error() is set"
+INIT_LEAVES = [L_RW, L_RO, L_DEEP, "rw.startswith(%s)" % IMM_P, "rw.startswith(%s)" % RO_P,
+               "ro.startswith(%s)" % IMM_P, "ro.startswith(%s)" % RO_P, L_UNK, L_ERR]
+
+
+class _Crash(Exception):
+    pass
+
+
+class InitEval:
+    """Runs the constructor of UnknownNode over abstract values: a cap is ('cap', 'rw'|'ro') (which constructor
+    argument the bytes came from; prefix surgery keeps the origin - the prefixes themselves are C19.6's business),
+    errors are ('err',), the parsed read cap is ('readcap', origin, constrained).  Tests are answered from a truth
+    assignment to: which caps are given, deep_immutable, the startswith() tests of each cap, whether the parsed
+    cap is an UnknownURI and whether it recorded a constraint error.  Anything outside this vocabulary is an
+    analysis error (fail closed)."""
+
+    def __init__(self, fn):
+        self.fn = fn
+        self.cfg = fn.cfg()
+        pos = first_positional_params(fn)
+        if len(pos) < 2 or "deep_immutable" not in fn.params:
+            raise AnchorVanished("%s no longer takes (rw_uri, ro_uri, deep_immutable)" % short(fn))
+        self.p_rw, self.p_ro = pos[0], pos[1]
+
+    def bad(self, what, e=None):
+        raise AnalysisError("%s: cannot execute %s abstractly%s" % (
+            short(self.fn), what, (": " + src(self.fn, e)) if e is not None else ""))
+
+    def truthy(self, v, e=None):
+        if v is None or v is False:
+            return False
+        if v is True:
+            return True
+        if isinstance(v, tuple) and v[0] in ("cap", "err", "readcap"):
+            return True
+        if isinstance(v, tuple) and v[0] == "lit":
+            return bool(v[1])
+        if v is UNSET:
+            raise _Crash()
+        self.bad("the truth value of", e)
+
+    def ev(self, e, st, env):
+        if isinstance(e, ast.Constant):
+            if e.value is None or isinstance(e.value, bool):
+                return e.value
+            return ("lit", e.value)
+        if isinstance(e, ast.Name):
+            if e.id in st:
+                if st[e.id] is UNSET:
+                    raise _Crash()
+                return st[e.id]
+            return ("sym", e.id)
+        if isinstance(e, ast.Attribute):
+            p = attr_path(e)
+            if p and p.startswith("self."):
+                v = st.get(p, UNSET)
+                if v is UNSET:
+                    raise _Crash()
+                return v
+            if p:
+                return ("sym", p.rsplit(".", 1)[-1])
+            self.bad("attribute", e)
+        if isinstance(e, ast.BoolOp):
+            is_and = isinstance(e.op, ast.And)
+            v = None
+            for x in e.values:
+                v = self.ev(x, st, env)
+                if self.truthy(v, x) != is_and:
+                    return v
+            return v
+        if isinstance(e, ast.UnaryOp) and isinstance(e.op, ast.Not):
+            return not self.truthy(self.ev(e.operand, st, env), e.operand)
+        if isinstance(e, ast.IfExp):
+            t = self.truthy(self.ev(e.test, st, env), e.test)
+            return self.ev(e.body if t else e.orelse, st, env)
+        if isinstance(e, ast.Compare) and len(e.ops) == 1 and isinstance(e.ops[0], (ast.Is, ast.IsNot, ast.Eq, ast.NotEq)):
+            a, b = self.ev(e.left, st, env), self.ev(e.comparators[0], st, env)
+            if a is not None and b is not None:
+                self.bad("comparison", e)
+            same = a is None and b is None
+            return same if isinstance(e.ops[0], (ast.Is, ast.Eq)) else not same
+        if isinstance(e, ast.BinOp) and isinstance(e.op, ast.Add):
+            a, b = self.ev(e.left, st, env), self.ev(e.right, st, env)
+            if a is None or b is None:
+                raise _Crash()
+            caps = [x for x in (a, b) if isinstance(x, tuple) and x[0] == "cap"]
+            if len(caps) > 1:
+                self.bad("concatenation of two caps", e)
+            return caps[0] if caps else ("sym", "+")
+        if isinstance(e, ast.Subscript):
+            v = self.ev(e.value, st, env)
+            if v is None:
+                raise _Crash()
+            if isinstance(v, tuple) and v[0] == "cap" and isinstance(e.slice, ast.Slice):
+                return v
+            self.bad("subscript", e)
+        if isinstance(e, ast.Call):
+            return self.call(e, st, env)
+        self.bad("expression", e)
+
+    def call(self, e, st, env):
+        tail = call_tail(e)
+        if tail.endswith("Error") or tail.endswith("Exception"):
+            return ("err",)
+        if tail == "startswith" and isinstance(e.func, ast.Attribute) and len(e.args) == 1:
+            v = self.ev(e.func.value, st, env)
+            p = self.ev(e.args[0], st, env)
+            if v is None:
+                raise _Crash()
+            if isinstance(v, tuple) and v[0] == "cap" and isinstance(p, tuple) and p[0] == "sym":
+                return env.leaf("%s.startswith(%s)" % (v[1], p[1]))
+            self.bad("startswith", e)
+        if tail == "isinstance" and len(e.args) == 2:
+            v = self.ev(e.args[0], st, env)
+            t = attr_path(e.args[1]) or ""
+            if isinstance(v, tuple) and v[0] == "readcap":
+                if t.rsplit(".", 1)[-1] == "UnknownURI":
+                    return env.leaf(L_UNK)
+                self.bad("isinstance of the parsed cap", e)
+            if t == "bytes":
+                return isinstance(v, tuple) and v[0] == "cap"
+            self.bad("isinstance", e)
+        if tail == "from_string" and e.args:
+            v = self.ev(e.args[0], st, env)
+            if v is None:
+                raise _Crash()
+            if not (isinstance(v, tuple) and v[0] == "cap"):
+                self.bad("from_string of a non-cap", e)
+            di = kwarg(e, "deep_immutable") or arg(e, 1)
+            dv = self.ev(di, st, env) if di is not None else False
+            return ("readcap", v[1], dv is env.leaf(L_DEEP) or (dv is True))
+        if tail == "get_error" and isinstance(e.func, ast.Attribute) and not e.args:
+            v = self.ev(e.func.value, st, env)
+            if isinstance(v, tuple) and v[0] == "readcap":
+                if not env.leaf(L_UNK):
+                    raise _Crash()             # only UnknownURI has get_error()
+                # a parse that was not told about deep_immutable cannot report the deep-immutable constraint
+                return ("err",) if (env.leaf(L_ERR) and v[2]) else None
+            self.bad("get_error", e)
+        if tail == "len" and len(e.args) == 1:
+            return ("sym", "len")
+        self.bad("call", e)
+
+    def run(self, env):
+        """-> CRASH or dict(error=bool, rw=value, ro=value, validated=bool)."""
+        for k in INIT_LEAVES:
+            env.leaf(k)
+        cfg = self.cfg
+        st = {self.p_rw: ("cap", "rw") if env.leaf(L_RW) else None,
+              self.p_ro: ("cap", "ro") if env.leaf(L_RO) else None,
+              "deep_immutable": bool(env.leaf(L_DEEP))}
+        for p in self.fn.params:
+            if p not in st and p != "self":
+                st[p] = ("sym", p)
+        validated = set()
+        n = cfg.entry
+        try:
+            for _step in range(600):
+                if n is cfg.exit:
+                    break
+                if n is cfg.raise_exit:
+                    return CRASH
+                succ = cfg.successors(n)
+                if n.kind == "test":
+                    t = self.truthy(self.ev(n.ast, st, env), n.ast)
+                    nxt = [d for (d, l) in succ if isinstance(l, tuple) and l[0] == ("T" if t else "F")]
+                elif n.kind in ("entry", "stmt"):
+                    a = n.ast
+                    if isinstance(a, ast.Return):
+                        if a.value is not None and not (isinstance(a.value, ast.Constant) and a.value.value is None):
+                            self.bad("return of a value", a)
+                        break
+                    if isinstance(a, ast.Raise):
+                        return CRASH
+                    if isinstance(a, ast.Assign):
+                        v = self.ev(a.value, st, env)
+                        if isinstance(v, tuple) and v[0] == "readcap":
+                            validated.add(v[1:])
+                        for t in a.targets:
+                            p = attr_path(t)
+                            if not p or not isinstance(t, (ast.Name, ast.Attribute)) or (
+                                    isinstance(t, ast.Attribute) and not p.startswith("self.")):
+                                self.bad("assignment target", t)
+                            st[p] = v
+                    elif isinstance(a, ast.Expr):
+                        if not isinstance(a.value, ast.Constant):
+                            self.ev(a.value, st, env)
+                    elif a is not None and not isinstance(a, ast.Pass):
+                        self.bad("statement", a)
+                    nxt = [d for (d, l) in succ if l is None]
+                else:
+                    self.bad("%s node" % n.kind)
+                if len(nxt) != 1:
+                    self.bad("control flow at %r" % n)
+                n = nxt[0]
+            else:
+                self.bad("non-terminating control flow")
+        except _Crash:
+            return CRASH
+        err = st.get("self.error", UNSET)
+        rw = st.get("self.rw_uri", UNSET)
+        ro = st.get("self.ro_uri", UNSET)
+        if err is UNSET or rw is UNSET or ro is UNSET:
+            return CRASH                   # raise_error() / get_write_uri() would fail with AttributeError
+        return {"error": self.truthy(err), "rw": rw, "ro": ro}
+
+
 def implemented_interfaces(ci):
     """Interface names in @implementer(..) of the class and its bases."""
     out = set()
